@@ -242,7 +242,7 @@ class C02(Property):
         # seeds through _partition_args / generate_blocks / iteration
         import ase
         base = ase.Atoms("Si2", positions=[(1, 1, 0.5), (2, 3, 1.5)], cell=(4, 4, 2))
-        for _ in range(ctx.n(60, 800)):
+        for it in range(ctx.n(60, 800)):
             n = rng.randint(1, 8)
             seeds = rng.sample(range(1, 10 ** 6), n)
             fp = abtem.FrozenPhonons(base, n, 0.1, seed=tuple(seeds))
@@ -269,6 +269,22 @@ class C02(Property):
             add("FrozenPhonons._partition_args(lazy)", f"part {list_s(vc[0])} {list_s(seeds)}",
                 "ok " + listlist_s([[int(s) for s in blk[1]] for blk in lazy_blocks]), case)
             ctx.count(f"seeds:n={n}:blocks={len(vc[0])}")
+            # AtomsEnsemble slices its trajectory the same way (members identified by their number of atoms)
+            traj = [ase.Atoms("H" * (m + 1), positions=[(0.5 * a, 1.0, 0.5) for a in range(m + 1)], cell=(4, 4, 2)) for m in range(n)]
+            ae = abtem.AtomsEnsemble(traj)
+            blocks = ae._partition_args(vc, lazy=False)[0]
+            impl = listlist_s([[len(a) for a in blk.item()] for blk in blocks])
+            add("AtomsEnsemble._partition_args", f"part {list_s(vc[0])} {list_s(range(1, n + 1))}", "ok " + impl, case)
+            used = [len(a) for a in ae]  # __iter__: generate_blocks(1) -> randomize (identity)
+            add("AtomsEnsemble.__iter__", f"cfgseeds {list_s([1] * n)} {list_s(range(1, n + 1))}", "ok " + list_s(used), case)
+            # CrystalPotential seeds (one seed per configuration of the crystal)
+            if it % 4 == 0:
+                from abtem.potentials.iam import CrystalPotential
+                unit = abtem.Potential(base, gpts=4, slice_thickness=1.0)
+                cp = CrystalPotential(unit, repetitions=(1, 1, 1), seeds=tuple(seeds))
+                blocks = cp._partition_args(vc, lazy=False)[0]
+                impl = listlist_s([[int(x) for x in blk[1]] for blk in blocks])
+                add("CrystalPotential._partition_args", f"part {list_s(vc[0])} {list_s(seeds)}", "ok " + impl, case)
         # traced orchestration
         for i in range(ctx.n(90, 1200)):
             c = trace_case(rng)
